@@ -10,10 +10,26 @@ Local Open Scope Q_scope.
 (** every state returned by stepTo is either the advanced state at the end of a projected step, or an interpolated
     state created with the projection option the user chose *)
 Theorem C21_every_returned_state_projected_partial c reqs s orc :
-  Inv c s -> reqs_ok c s reqs orc -> advProj s = true -> Forall (fun o => proj o = true) orc ->
+  Inv c s -> reqs_ok c s reqs orc -> advProj s = true -> Forall step_proj_ok orc ->
   Forall (proj_ok c) (run c s reqs orc).
 Proof. exact (every_returned_state_projected_partial c reqs s orc). Qed.
 Print Assumptions C21_every_returned_state_projected_partial.
+
+(** the state integration resumes from after an event localized strictly inside a step -- the advanced state made by
+    backUpAdvancedStateByInterpolation, also the state handed to event handlers -- has passed projection: for every
+    configuration (in particular with projection of interpolated states switched off), every state, every request and
+    every oracle answer, with no hypothesis.  ([step_proj_ok o] above is [step_end_proj o = true]: a backed-up step end
+    counts as projected whatever the accepted attempt did; createInterpolatedState, by contrast, follows the option.) *)
+Theorem C21_state_resumed_after_backed_up_event_projected c s report sched orc st s' orc' us u :
+  stepTo c s report sched orc = Ok (st, s', orc', us) -> last_use us = Some u -> backed_up (u_o u) = true ->
+  advProj s' = true.
+Proof. exact (state_resumed_after_backed_up_event_projected c s report sched orc st s' orc' us u). Qed.
+Print Assumptions C21_state_resumed_after_backed_up_event_projected.
+
+(** non-vacuity: in the example script the event step is backed up (window (0.6,0.7], accepted attempt ends at 0.8) *)
+Theorem C21_backed_up_example : existsb backed_up ex_orc = true.
+Proof. exact c21_backed_up_example. Qed.
+Print Assumptions C21_backed_up_example.
 
 Theorem C21_interp_without_projection_only_when_disabled c reqs s orc x st s' us :
   Inv c s -> reqs_ok c s reqs orc -> In x (run c s reqs orc) -> cr_res x = Ok (st, s', us) ->
@@ -24,7 +40,7 @@ Print Assumptions C21_interp_without_projection_only_when_disabled.
 (** non-vacuity: the script of C19_clause_hypotheses_satisfiable also satisfies the two extra hypotheses *)
 Theorem C21_hypotheses_satisfiable :
   Inv ex_cfg (init_state 0) /\ reqs_ok ex_cfg (init_state 0) ex_reqs ex_orc /\ advProj (init_state 0) = true /\
-  Forall (fun o => proj o = true) ex_orc.
+  Forall step_proj_ok ex_orc.
 Proof. exact c21_hypotheses_satisfiable. Qed.
 Print Assumptions C21_hypotheses_satisfiable.
 
